@@ -182,6 +182,23 @@ def one_run(hist, pool_names, off, inter, uni_kind='easy'):
                 info['competitor_stored'] = True
                 if node.cm.coinstate.current_chain_hash == comp.bid:
                     cur['head'] = comp
+        elif ikind == 'bulk-block-includes-pool':
+            # a block arrives as the answer to a request (bulk-download path: applied without full validation) that extends
+            # the head and contains the pending transactions; the miner's next request must be served from the new head
+            ts = max(H.ts + 1, clock + 10)
+            if ts > clock + 30 or not pool_txs:
+                return
+            try:
+                compb = world.assemble(H, list(pool_txs), K[5], ts, cb_data=b'bulk')
+            except Exception:
+                return
+            comp = world.Node(compb, H, path=H.path + ('bulk',))
+            from skepticoin.networking.messages import DataMessage, DATA_BLOCK
+            peers[0].send(DataMessage(DATA_BLOCK, world.from_wire(compb)), in_response_to=77)
+            if comp.bid in node.cm.coinstate.block_by_hash:
+                info['competitor_stored'] = True
+                if node.cm.coinstate.current_chain_hash == comp.bid:
+                    cur['head'] = comp
         elif ikind == 'clock-advances':
             net.clock.t += 7
         elif ikind == 'first-peer-socket-dead':
@@ -357,6 +374,8 @@ def configs(ctx):
                                 inters += [('clock-advances', pos)]
                             if off == 0 and pos[1] == 0:
                                 inters += [('first-peer-socket-dead', pos)]
+                            if off in (0, 120) and len(sub) == 1 and pos == ('after-result', 0):
+                                inters += [('bulk-block-includes-pool', pos)]
                     if off in (0, 120) and len(sub) <= 1:
                         # two miner processes sharing the watcher: req0 req1 res0 res1 ...; event after operation k
                         inters += [('none', ('two', 0))]
